@@ -3,6 +3,7 @@ C13 — buffered collections stay consistent under concurrent threads.
 -/
 import SC.Lemmas.Conc
 import SC.Lemmas.BufSize
+import SC.Lemmas.BufBound
 import SC.Props.C04
 namespace SC.Props
 open SC.Conc
@@ -61,5 +62,52 @@ theorem C13_accounting_survives_interleaving (s0 : B.State) (hs : B.SizeOK s0)
   obtain ⟨steps, _, hst⟩ := hep
   rw [← hst]
   exact steps_keep_sizeOK steps
+
+/-- the same for any predicate that every machine step keeps -/
+theorem interleaving_keeps (P : B.State → Prop) (hstep : ∀ s st, P s → P (B.step s st))
+    (s0 : B.State) (hs : P s0)
+    (progs : List (List (List B.Step))) (sched : List Nat)
+    (hd : Done (run (init s0 (progs.map (·.map (·.map (fun st s => B.step s st))))) sched)) :
+    P (run (init s0 (progs.map (·.map (·.map (fun st s => B.step s st))))) sched).σ := by
+  have hlin := linearizable s0 _ sched hd
+  rw [hlin.1]
+  have hser : ∀ (log : List (Nat × Conc.Op B.State)),
+      (∀ e ∈ log, ∀ s, P s → P (e.2.apply s)) → ∀ s, P s → P (serial s log) := by
+    intro log
+    induction log with
+    | nil => intro _ s hs; exact hs
+    | cons e rest ih =>
+      intro h s hs
+      simp only [serial, List.foldl_cons]
+      exact ih (fun e' he' => h e' (List.mem_cons_of_mem _ he')) _ (h e List.mem_cons_self s hs)
+  have hsteps : ∀ (steps : List B.Step) s, P s → P (Op.apply (steps.map (fun st s => B.step s st)) s) := by
+    intro steps
+    induction steps with
+    | nil => intro s hs; exact hs
+    | cons st rest ih =>
+      intro s hs
+      simp only [List.map_cons, Op.apply_cons]
+      exact ih _ (hstep s st hs)
+  refine hser _ ?_ s0 hs
+  intro e he
+  have hlt : e.1 < (progs.map (·.map (·.map (fun st s => B.step s st)))).length :=
+    logged_thread_exists s0 _ sched e he
+  have hp := hlin.2 e.1 _ (List.getElem?_eq_getElem hlt)
+  have hep : e.2 ∈ (progs.map (·.map (·.map (fun st s => B.step s st))))[e.1] := by
+    rw [← hp]
+    exact List.mem_map.mpr ⟨e, List.mem_filter.mpr ⟨he, by simp⟩, rfl⟩
+  simp only [List.getElem_map, List.mem_map] at hep
+  obtain ⟨steps, _, hst⟩ := hep
+  rw [← hst]
+  exact hsteps steps
+
+/-- C13 with the full C15 invariant: after ANY concurrent execution of buffered operations (each
+holding the buffer lock) the size is exact, within the capacity, every buffered file has a buffered
+registered holder — hence outside all contexts the buffer is empty and the size 0 -/
+theorem C13_bound_survives_interleaving (s0 : B.State) (hs : B.Good s0)
+    (progs : List (List (List B.Step))) (sched : List Nat)
+    (hd : Done (run (init s0 (progs.map (·.map (·.map (fun st s => B.step s st))))) sched)) :
+    B.Good (run (init s0 (progs.map (·.map (·.map (fun st s => B.step s st))))) sched).σ :=
+  interleaving_keeps B.Good B.good_step s0 hs progs sched hd
 
 end SC.Props
